@@ -174,7 +174,8 @@ def t2_raw(ctx, state, text: str, t1) -> dict:
         "ver": int(idx.index_version()) if idx is not None else 0,
         "index": code(index_content(idx)) if idx is not None else 0,
         "labelMap": code(sorted(build_label_map(state).items())),
-        "rest": code([cfg_t2.get("hybrid", {}), {k: v for k, v in q.items()}]),
+        "rest": code([cfg_t2.get("hybrid", {}), {k: v for k, v in q.items()},
+                      sorted((str(k), str(v)) for k, v in ((state.get("graph") or {}).get("edges") or {}).items())]),
     }
 
 
@@ -360,6 +361,10 @@ def run_history(scratch: Path, case: dict, caches_on: bool, key_log: Optional[li
     for wi, spec in enumerate(case["worlds"]):
         sp = dict(copy.deepcopy(spec))
         sp.setdefault("boot_loaded", True)
+        if sp.get("gel_pairs"):
+            from clematis.engine.stages.hybrid import _edge_key
+            sp["gel"] = {"nodes": {}, "edges": {_edge_key(a, b): {"src": a, "dst": b, "weight": float(wt)}
+                                                for a, b, wt in sp.pop("gel_pairs")}}
         sp["cfg"] = TR.deep_merge(TR.deep_merge(case.get("base") or {}, sp.get("cfg") or {}), overlay)
         w = TR.build_world(Path(scratch) / f"w{wi}", sp, fresh_process_state=False)
         if caches_on and mode in ("turn", "all_lru", "all_bytes"):
@@ -394,6 +399,27 @@ def run_history(scratch: Path, case: dict, caches_on: bool, key_log: Optional[li
                 ep["vec_full"] = BGEAdapter(dim=int(w.cfg_plain.get("k_surface", 32))).encode(
                     [str(ep.get("text", "") if vec_text is None else vec_text)])[0]
                 w.state["mem_index"].add(ep)
+            elif k == "edge_rmw":
+                # read-modify-write: mutate the STORED object, then upsert that same object
+                st = worlds[op["w"]].store
+                e = st.get_graph("g:surface").edges[op["id"]]
+                e.weight = float(op["wt"])
+                st.upsert_edges("g:surface", [e])
+            elif k == "node_rmw":
+                st = worlds[op["w"]].store
+                n = st.get_graph("g:surface").nodes[op["id"]]
+                n.label = op["label"]
+                st.upsert_nodes("g:surface", [n])
+            elif k == "edge_copy":
+                # control: upsert of an equal FRESH copy (a no-op for every reader)
+                from clematis.graph.store import Edge
+                st = worlds[op["w"]].store
+                e = st.get_graph("g:surface").edges[op["id"]]
+                st.upsert_edges("g:surface", [Edge(id=e.id, src=e.src, dst=e.dst, weight=e.weight, rel=e.rel)])
+            elif k == "gel":
+                from clematis.engine.stages.hybrid import _edge_key
+                g = worlds[op["w"]].state.setdefault("graph", {"nodes": {}, "edges": {}})
+                g.setdefault("edges", {})[_edge_key(op["a"], op["b"])] = {"src": op["a"], "dst": op["b"], "weight": float(op["wt"])}
             elif k == "apply":
                 # the REAL apply_changes handing dict deltas to the REAL InMemoryGraphStore.apply_deltas
                 from clematis.engine.apply import apply_changes
